@@ -468,6 +468,9 @@ func (c *lifeCase) createNear() {
 	r := c.r
 	p := c.prods[r.intn(len(c.prods))]
 	ui := r.intn(len(c.users))
+	for k := 0; k < len(c.users) && c.vaultOf(ui, p) != 0; k++ { // prefer a user who has no vault in this product
+		ui = (ui + 1) % len(c.users)
+	}
 	target := p.floor.Add(c.natural(p.out))
 	ain := c.minColl(p, target)
 	if ain.IsZero() {
